@@ -8,6 +8,9 @@ PROP = "C01"
 OPTION_POOL_OFF = [[], [], ["export"], ["export = false"], ["?Send"], ["unimock = false"], ["mockall = false"],
                    ["mock_api = SubjectMock"], ["no_deps = false"], ["export", "?Send"], ["debug = false"],
                    ["unimock = false", "mock_api = SubjectMock"], ["mockall = false", "export = true"]]
+# (C01 only) a mock option that is inert in this build (gated by cfg(test), the mockall crate is not needed) but makes the trait
+# "mockable": it is then implemented for Impl<T> only, through a differently written impl header
+MOCKALL_INERT = [["mockall"], ["mockall = true", "?Send"], ["mockall", "mock_api = SubjectMock"]]
 OPTION_POOL_ON = OPTION_POOL_OFF + [["mock_api = SubjectMock"], ["mock_api = SubjectMock", "?Send"],
                                     ["unimock = true"], ["unimock"], ["mock_api = SubjectMock", "unimock = true"]]
 
@@ -40,9 +43,11 @@ def gen_cases(n, seed, unimock, label, profile=None):
     rng = core.rng_for(PROP, seed, label)
     for i in range(n):
         cid = "c01%s_%04d" % (label, i)
-        opts = list(rng.choice(OPTION_POOL_ON if unimock else OPTION_POOL_OFF))
+        opts = list(rng.choice((OPTION_POOL_ON if unimock else OPTION_POOL_OFF) + MOCKALL_INERT))
         rng.shuffle(opts)
         macro = rng.choice(["entrait", "entrait", "entrait_export"])
+        if any(o.startswith("mockall") and "false" not in o for o in opts):
+            macro = "entrait"   # (exported, the automock attribute would really be expanded)
         prof = dict(profile or {})
         if unimock_expanded(macro, opts, unimock):
             prof.update(UNIMOCK_SAFE)
